@@ -66,6 +66,25 @@ let front id = function
     Printf.printf "%s\tOK\t%s\t%s\n" id (String.concat ";" (List.map show_obs obs))
       (String.concat "," (List.map (function Some b -> "=" ^ hs b | None -> "-") files))
   | _ -> Printf.printf "%s\tSKIP\n" id
+(* a document: nodes in preorder, ';' separated, each name|attrs|E(mpty)/C(ontainer)|text or -|number of children *)
+let parse_doc f =
+  let toks = Array.of_list (split_on ';' f) in
+  let pos = ref 0 and idx = ref 0 in
+  let rec node () =
+    let t = toks.(!pos) in
+    incr pos;
+    match String.split_on_char '|' t with
+    | [n; a; fl; tx; k] ->
+      let my = !idx in
+      incr idx;
+      let nk = int_of_string k in
+      let kids = ref [] in
+      for _ = 1 to nk do kids := node () :: !kids done;
+      mk_node (cs n) (parse_attrs a) (z_of_int my) (fl = "E") (if tx = "-" then None else Some (cs tx)) (List.rev !kids)
+    | _ -> failwith "node" in
+  let out = ref [] in
+  while !pos < Array.length toks do out := node () :: !out done;
+  List.rev !out
 
 let res_line id r show = match r with
   | Ok v -> Printf.printf "%s\tOK\t%s\n" id (show v)
@@ -127,6 +146,14 @@ let handle id kind fields =
      | Some (Ok s, w) -> Printf.printf "%s\tOK\t%s\t%s\n" id (hs s) (string_of_z w)
      | Some (Err k, w) -> Printf.printf "%s\tERR\t%s\t%s\n" id (implode (errkind_name k)) (string_of_z w)
      | _ -> Printf.printf "%s\tSKIP\n" id)
+  | "rootattrs", [a; bbx; border; scale; lid; sty] ->
+    let ob = if bbx = "none" then None else Some (parse_bb bbx) in
+    let os f = if f = "-" then None else Some (cs f) in
+    res_line id (run_rootattrs (parse_attrs a) ob (z_of_int (int_of_string border)) (z_of_int (int_of_string scale)) (os lid) (os sty)) show_attrs
+  | "docroot", [d; border; scale] ->
+    res_line id (run_docroot (parse_doc d) (z_of_int (int_of_string border)) (z_of_int (int_of_string scale)))
+      (fun (e, a) -> (match e with Some bb -> show_bb bb | None -> "none") ^ "\t" ^
+                     (match a with Some a -> "A" ^ show_attrs a | None -> "none"))
   | _ -> Printf.printf "%s\tSKIP\n" id
 
 let () =
